@@ -509,6 +509,13 @@ func (g *opGen) follow(prev Op) (Op, bool) {
 
 // GenCase draws a start file and an operation sequence.
 func GenCase(t *rapid.T, work bool, maxOps int, names []string) Case {
+	return GenCaseThen(t, work, maxOps, names, nil)
+}
+
+// GenCaseThen is GenCase followed by one more operation drawn from last (if not empty), generated against
+// what the earlier operations left: the setters are documented for whatever the file holds, and a file
+// that earlier calls of the same session have edited is not laid out like a freshly parsed one.
+func GenCaseThen(t *rapid.T, work bool, maxOps int, names []string, last []string) Case {
 	o := modgen.Options{Work: work, Markers: true, OddPaths: true, DupHeavy: rapid.Bool().Draw(t, "dupheavy")}
 	start := modgen.Gen(t, o)
 	c := Case{Start: start}
@@ -544,6 +551,11 @@ func GenCase(t *rapid.T, work bool, maxOps int, names []string) Case {
 		c.Ops = append(c.Ops, op)
 		m.ApplyModel(op)
 		prev = op
+	}
+	if len(last) > 0 {
+		op := g.op(pick(t, last, "lastop"))
+		c.Ops = append(c.Ops, Op{Name: "Cleanup"}, op)
+		m.ApplyModel(op)
 	}
 	return c
 }
